@@ -1,9 +1,9 @@
 ------------------------------ MODULE HFValues ------------------------------
 (* Value domain of the HiFiber abstract machine: exact rationals, tagged values, coordinates.    *)
-(* A coordinate is a sequence of integers scaled by SCALE (so halves and thirds are exact); a     *)
+(* A coordinate is a sequence of integers scaled by SCALE (so halves, thirds and quarters are exact); a     *)
 (* scalar coordinate is <<c>>, a flattened ("tuple") coordinate is <<c1, .., cn>>.                 *)
 EXTENDS Integers, Sequences, FiniteSets, TLC, SequencesExt, FiniteSetsExt
-SCALE == 6
+SCALE == 12
 (* helpers *)
 SeqSet(s) == {s[i] : i \in 1..Len(s)}
 Bind(f, x, v) == [y \in DOMAIN f \cup {x} |-> IF y = x THEN v ELSE f[y]]
